@@ -26,6 +26,7 @@ pub mod prop_merge;
 pub mod prop_c16;
 pub mod prop_c18;
 pub mod prop_c17;
+pub mod prop_c19;
 
 use framework::PropertyDef;
 
@@ -47,6 +48,7 @@ pub fn registry() -> Vec<PropertyDef> {
         prop_c16::def(),
         prop_c18::def(),
         prop_c17::def(),
+        prop_c19::def(),
     ]
 }
 
